@@ -9,6 +9,7 @@ into the tree `T` (an upward link — target bit position `≤ b` — is a leaf)
 -/
 namespace AlgoVerif.C06
 variable {V : Type}
+open BitString (xbit Small)
 
 open PT
 
@@ -157,7 +158,7 @@ theorem searchLoop_rep {t : Patricia V} {T : PT V} {b : Nat} {p : Option Nat} (h
       simp only [searchLoop, node, hn, bind, Outcome.bind, hgt, if_true]
       rw [BitString.bit_ok_of_pos _ (by omega)]
       simp only [descend]
-      cases hbit : kbit key (n.bp - 1)
+      cases hbit : xbit key (n.bp - 1)
       · simp only [Bool.false_eq_true, if_false]
         exact ihl hl f (by omega)
       · simp only [if_true]
